@@ -36,6 +36,7 @@ TNew == /\ IsEvent("New")
                    /\ \A i \in 1..R.n : <<R.starts[i], R.ends[i]>> = PieceRange(blob, pl, i - 1)
                    /\ AllTrue(R.sumOK)                             \* checksums are those of the corresponding bytes
                    /\ R.digestOK
+TNewFail == IsEvent("NewFail") /\ ~R.ok /\ GenerateFailed
 TSerialize == IsEvent("Serialize") /\ R.ok /\ Serialize
 TDeserialize == /\ IsEvent("Deserialize")
                 /\ R.ok
@@ -43,7 +44,7 @@ TDeserialize == /\ IsEvent("Deserialize")
                 /\ R.digestOK /\ R.sumsEq /\ R.reser               \* digest, piece sums, and the bytes re-serialize identically
                 /\ Deserialize
 
-TraceNext == TReset \/ TBlob \/ TSetPL \/ TPieceLength \/ TNew \/ TSerialize \/ TDeserialize
+TraceNext == TReset \/ TBlob \/ TSetPL \/ TPieceLength \/ TNew \/ TNewFail \/ TSerialize \/ TDeserialize
 TraceSpec == TraceInit /\ [][TraceNext]_tvars
 
 \* (MetaInfoTrace.cfg checks TypeOK, Describes, OneHash, LookupLaw in every state; LayoutLaw quantifies over all pieces of
